@@ -32,6 +32,9 @@ type oenum struct {
 	c     *Ctx
 	limit int
 	err   error
+	// stopAt: a call at which a path ends; the path's "result" is the call's argument of the returned index (used to
+	// read the value a function hands to a callee the way a returned value is read)
+	stopAt func(call *ssa.Call) (bool, int)
 }
 
 func isIntType(t types.Type) bool {
@@ -161,6 +164,12 @@ func (o *oenum) paths(f *ssa.Function, st0 map[ssa.Value]string, depth int) []op
 		for i := idx; i < len(b.Instrs); i++ {
 			switch x := b.Instrs[i].(type) {
 			case *ssa.Call:
+				if o.stopAt != nil && depth == 0 {
+					if hit, k := o.stopAt(x); hit && k < len(x.Call.Args) {
+						out = append(out, opath{Conds: conds, Ret: []string{o.term(x.Call.Args[k], st)}})
+						return
+					}
+				}
 				g := x.Call.StaticCallee()
 				if g != nil && inModule(g) && g.Blocks != nil && inlinable(g) {
 					cst := map[ssa.Value]string{}
@@ -330,6 +339,20 @@ func copyBB(m map[*ssa.BasicBlock]bool) map[*ssa.BasicBlock]bool {
 // DecisionPaths is the entry: decision paths of f with the given symbolic parameter names.
 func (c *Ctx) DecisionPaths(f *ssa.Function, params map[int]string) ([]opath, error) {
 	o := &oenum{c: c, limit: 4096}
+	st := map[ssa.Value]string{}
+	for i, p := range f.Params {
+		if s, ok := params[i]; ok {
+			st[p] = s
+		}
+	}
+	ps := o.paths(f, st, 0)
+	return ps, o.err
+}
+
+// DecisionPathsToCall: like DecisionPaths, with every path ending at the first call stop selects; the path's result is
+// that call's argument.
+func (c *Ctx) DecisionPathsToCall(f *ssa.Function, params map[int]string, stop func(call *ssa.Call) (bool, int)) ([]opath, error) {
+	o := &oenum{c: c, limit: 4096, stopAt: stop}
 	st := map[ssa.Value]string{}
 	for i, p := range f.Params {
 		if s, ok := params[i]; ok {
